@@ -700,6 +700,18 @@ def other_routes(ctx, spec, ws, obj_cls, rules, objs, problems):
                 else:
                     cls = type("ObjT", (X.TableReader, obj_cls), {"ATTR_RULES": rules})
                     got_map = cls.read_map(ws)
+                    if got_map and not clash:
+                        # the caller takes entries out of "its" map and asks for the map of the sheet once more: the
+                        # whole sheet again
+                        first_map = dict(got_map)
+                        got_map.pop(next(iter(got_map)))
+                        got_map = cls.read_map(ws)
+                        ctx.count("maps_read_again_after_the_caller_emptied_the_first_one")
+                        if list(got_map) != list(first_map):
+                            problems.append(("map-of-objects-differs-from-list",
+                                             {"route": route, "got": repr(list(got_map))[:200],
+                                              "expected": repr(list(first_map))[:200], "second_reading": True}))
+                            return
             except ValueError:
                 if not clash:
                     problems.append(("map-of-objects-raises-without-conflicting-rows", {"route": route}))
